@@ -513,7 +513,13 @@ class Terms:
                 isinstance(st.value, ast.Constant)
                 or (
                     isinstance(st.value, ast.Call)
-                    and (dotted(st.value.func) or "").split(".")[0] in ("logger", "_LOGGER", "logging")
+                    and (
+                        (dotted(st.value.func) or "").split(".")[0] in ("logger", "_LOGGER", "logging")
+                        or (
+                            isinstance(st.value.func, ast.Attribute)
+                            and st.value.func.attr in ("debug", "info", "warning", "error", "exception", "log")
+                        )
+                    )
                 )
             ):
                 continue
